@@ -71,6 +71,8 @@ let () = iter_lines (fun line ->
       | GenPrelude.Stuck -> "abort" | GenPrelude.Exn -> "exception" | GenPrelude.Fuel -> "fuel" in
     print_endline (match fn with
       | "remove" -> show (Gen_ShiftLoops.coq_ShiftRemove items zn zc zi zk)
+      | "sremove" -> show (Gen_ShiftLoopsSeg.coq_ShiftRemove items zn zc zi zk)          (* the SegmentedArray instantiation *)
+      | "sinsert" -> show (Gen_ShiftLoopsSeg.coq_ShiftInsert items zn zc zi zk item_idx)
       | "insert" -> show (Gen_ShiftLoops.coq_ShiftInsert items zn zc zi zk item_idx)
       | "aaddback" | "aaddbackm" ->
         (* Array::AddBack(const Item&) executed from the AST facts (FactsProofs.gen_add_back_f): itemBuffer in cell 2^64 + 1 *)
@@ -103,6 +105,15 @@ let () = iter_lines (fun line ->
     let ptr = if ii <= ni && (ii < ni || ni > 0 || int_of_string _caps > 0) then 1000 + ii else 7 in
     let r = Gen_IndexOf.pvIndexOf (z_of_int 1000) (z_of_string ns) (z_of_int ptr) in
     print_endline (if string_of_z r = "18446744073709551615" then "max" else string_of_z r)
+  | ["gd"; "shrink"; ns; caps; _; cnts] ->
+    (* generated Array::Shrink clamp, internalCapacity = 0: the capacity after Shrink(capacity) *)
+    print_endline ("cap " ^ string_of_z (Gen_GuardsArray.coq_Shrink_clamp (z_of_int 0) (z_of_string ns) (z_of_string caps) (z_of_string cnts)))
+  | ["gd"; "segshrink"; ns; caps; _; cnts] ->
+    (* generated SegmentedArray::Shrink clamp; the capacity is then rounded up to whole segments of 4 items (cnst, logInitialItemCount = 2) *)
+    let up4 k = (k + 3) / 4 * 4 in
+    let segcap = up4 (max (int_of_string ns) (int_of_string caps)) in
+    let r = int_of_z (Gen_GuardsSeg.coq_SegShrink_clamp (z_of_int segcap) (z_of_string ns) (z_of_string cnts)) in
+    print_endline ("cap " ^ string_of_int (if r = segcap then segcap else up4 r))
   | ["gd"; fn; ns; caps; idx; cnts] ->
     (* the GENERATED guards (Gen_Guards*.v) decide accept / abort / exception; Array::Insert = prefix, then (after the
        growth the prefix asks for) the guard of InsertNogrow *)
